@@ -1099,6 +1099,38 @@ var _ = fmt.Sprintf
 // fieldLocations expands assigns fields(x) into one location per field of the struct x points to.
 func (ec *evalCtx) fieldLocations(e spec.Expr) (keys []string, ref *smt.Term, sorts []smt.Sort, ok bool) {
 	c, isCall := e.(*spec.Call)
+	if isCall && c.Fun == "prototarget" && len(c.Args) == 1 {
+		// prototarget(x): like target(x) for a decoder of protobuf messages: it writes only to
+		// objects that are proto.Message values, and no struct type of the verified root
+		// package implements proto.Message (checked when the program is loaded), so the
+		// library's own structs are not among its targets
+		ref := ec.scalar(ec.eval(c.Args[0]), e)
+		if bi, ok := ec.fc.boxes[ref.String()]; ok && (bi.v.Conv || ec.fc.viewPointer(bi.ty)) && bi.v.T != nil {
+			ref = bi.v.T
+		}
+		for _, k := range smt.SortedKeys(ec.fc.heapSorts) {
+			if strings.HasPrefix(k, "ghost:") || strings.HasPrefix(k, "map:") || strings.HasPrefix(k, "iter:") || k == "elems" || k == "elemsS" {
+				continue
+			}
+			tname := k
+			if strings.HasPrefix(k, "cell:") {
+				tname = k[len("cell:"):]
+			} else if i := strings.LastIndex(k, "."); i >= 0 {
+				tname = k[:i]
+			}
+			if ec.fc.P.rootNonProtoType(tname) {
+				continue
+			}
+			_, vs, isArr := smt.ArrParts(ec.fc.heapSorts[k])
+			if !isArr {
+				continue
+			}
+			keys = append(keys, k)
+			sorts = append(sorts, vs)
+		}
+		ec.fc.Used["protobuf decoders write only to proto.Message values; no struct type of the library implements proto.Message (checked at load)"] = true
+		return keys, ref, sorts, true
+	}
 	if isCall && c.Fun == "target" && len(c.Args) == 1 {
 		// target(x): every field of the object x refers to, whatever its dynamic type
 		// (the target of a decoder: json.Unmarshal(data, x))
